@@ -497,7 +497,12 @@ pub fn run(rep: &Report) {
     common::enumerate(rep, "many-variables", sizes.len() as u64 * 12, 8, &|i, l| {
         let n = sizes[(i % sizes.len() as u64) as usize];
         let variant = i / sizes.len() as u64;
-        let names: Vec<String> = (0..n).map(|k| format!("v{}", k)).collect();
+        // names of ordinary length, plus (every 5th) long ones of 63 / 64 / 65 / 130 / 300 bytes
+        let names: Vec<String> = (0..n)
+            .map(|k| if k % 5 == 4 { format!("v{}_{}", k, "n".repeat([58usize, 59, 60, 125, 295][(k / 5) % 5])) } else { format!("v{}", k) })
+            .collect();
+        // n context functions as well (cleared by clear / clear_functions, kept by clear_variables)
+        let fnames: Vec<String> = (0..n.min(40)).map(|k| if k % 7 == 6 { format!("g{}_{}", k, "m".repeat(61)) } else { format!("g{}", k) }).collect();
         let val = |k: usize, shift: usize| -> RV {
             match (k + shift) % 6 {
                 0 => RV::Int(k as i64),
@@ -511,6 +516,9 @@ pub fn run(rep: &Report) {
         let mut setup = vec![Op::Toggle(variant % 2 == 1)];
         if variant % 3 == 0 {
             setup.push(Op::SetFunction("f".into(), UF::Tag(2)));
+        }
+        for (k, f) in fnames.iter().enumerate() {
+            setup.push(Op::SetFunction(f.clone(), UF::Tag(k as i64 % 3 + 1)));
         }
         let mut ops: Vec<Op> = (0..n).map(|k| Op::SetValue(names[k].clone(), val(k, 0))).collect();
         let picks = [0usize, n / 2, n - 1, 15.min(n - 1), 16.min(n - 1), 17.min(n - 1)];
@@ -538,7 +546,10 @@ pub fn run(rep: &Report) {
         }
         ops.push(Op::EvalRead(names[0].clone()));
         l.label("history with many variables");
-        check_history(&setup, &ops, &names, &vec!["f".to_string(), "g".to_string()], false, l)
+        let mut probes = fnames.clone();
+        probes.push("f".to_string());
+        probes.push("g".to_string());
+        check_history(&setup, &ops, &names, &probes, false, l)
     });
     let n = rep.tier.pick(60_000u64, 6_000_000);
     let (n4, f4) = names4();
